@@ -240,7 +240,7 @@ void h_free(void)
     Slot *first0 = sg.m_first, *last0 = sg.m_last;
     Slot *nx = s ? s->m_next : (Slot *)0, *pv = s ? s->m_prev : (Slot *)0;
     Slot saved[NSLOTS]; for (int i = 0; i < NSLOTS; ++i) saved[i] = g_pool[i];
-    for (int i = 0; i < NSLOTS; ++i) { g_uattr[i][0] = (int16)nondet_unsigned(); g_uattr[i][1] = (int16)nondet_unsigned(); }     /* user attributes set by earlier rules */
+    if (s) { s->m_userAttr[0] = (int16)nondet_unsigned(); s->m_userAttr[1] = (int16)nondet_unsigned(); }     /* user attributes set by earlier rules */
     Segment_freeSlot(&sg, s);
     if (s) {
         live[IDX(s)] = false;
